@@ -4,6 +4,7 @@ pipeline builds (`RuschmSpec/Loc.lean`), stage by stage.
 -/
 import RuschmSpec.Loc
 import RuschmProofs.StoreLemmas
+import RuschmProofs.MacroLemmas
 
 namespace Ruschm
 
@@ -159,15 +160,393 @@ theorem match_locs_aux (T : List Pos) (lits : List String) : ∀ n,
       SubstIn T r.2) := by
   intro n
   induction n with
-  | zero => constructor <;> intros <;> simp_all [matchDatum, matchStream]
+  | zero => constructor <;> intros <;> simp_all
   | succ n ih =>
     obtain ⟨ihD, ihS⟩ := ih
     constructor
     · intro p d σ r h hd hσ
-      rw [matchDatum] at h
-      sorry
-    · sorry
+      cases hp : p.isListy
+      · cases p <;> simp [Pat.isListy] at hp
+        · simp at h; subst h; exact hσ
+        · simp at h; subst h; exact hσ
+        · rw [matchDatum_vec] at h
+          cases d <;> simp at h <;> try (subst h; exact hσ)
+          rename_i ps ds loc
+          refine ihS _ _ _ _ _ h (fun x hx => ?_) hσ
+          simp only [Datum.locs] at hd
+          exact (Datum.locs_subset_locsList hx).trans
+            ((List.subset_append_right _ _).trans hd)
+        · rename_i v
+          rw [matchDatum_ident] at h
+          split at h <;> cases h
+          · exact hσ
+          · exact hσ.insert v hd
+        · rw [matchDatum_prim] at h; cases h; exact hσ
+      · cases hdl : d.isListy
+        · rw [matchDatum_listy_atom hp hdl] at h; cases h; exact hσ
+        · rw [matchDatum_listy hp hdl] at h
+          have hsp := Datum.spine_locs d
+          have h1 := ihS p.spine.1 d.spine.1 none σ
+          split at h
+          · cases h
+          · rename_i σ1 he; cases h
+            exact h1 _ he (fun x hx => (hsp.1 x hx).trans hd) hσ
+          · rename_i σ1 he
+            have hσ1 := h1 _ he (fun x hx => (hsp.1 x hx).trans hd) hσ
+            split at h
+            · rename_i lp ld hlp hld
+              exact ihD _ _ _ _ h ((hsp.2 _ hld).trans hd) hσ1
+            · cases h; exact hσ1
+            · cases h; exact hσ1
+    · intro ps ds mm σ r h hds hσ
+      cases ps with
+      | nil => cases ds <;> simp at h <;> subst h <;> exact hσ
+      | cons p ps =>
+        cases ds with
+        | nil =>
+          cases hp : p.isEllipsis
+          · rw [matchStream_cons_nil_ne hp] at h; cases h; exact hσ
+          · cases p <;> simp [Pat.isEllipsis] at hp
+            cases mm with
+            | none => simp at h; subst h; exact hσ
+            | some mp =>
+              rw [matchStream_ell_nil_some] at h
+              exact ihS _ _ _ _ _ h hds hσ
+        | cons d ds =>
+          have hd : d.locs ⊆ T := hds d (List.mem_cons_self ..)
+          have hds' : ∀ x ∈ ds, x.locs ⊆ T := fun x hx => hds x (List.mem_cons_of_mem _ hx)
+          cases hp : p.isEllipsis
+          · rw [matchStream_step_ne hp] at h
+            split at h
+            · cases h
+            · rename_i σ1 he; cases h; exact ihD _ _ _ _ he hd hσ
+            · rename_i σ1 he
+              exact ihS _ _ _ _ _ h hds' (ihD _ _ _ _ he hd hσ)
+          · cases p <;> simp [Pat.isEllipsis] at hp
+            cases n with
+            | zero => rw [matchStream_ell_one] at h; cases h
+            | succ n =>
+              cases mm with
+              | none => rw [matchStream_ell_none] at h; cases h
+              | some mp =>
+                rw [matchStream_step_ell] at h
+                split at h
+                · cases h
+                · cases h; exact hσ
+                · rename_i τ he
+                  have hτ := ihD _ _ _ _ he hd (SubstIn.nil T)
+                  split at h
+                  · cases h
+                  · rename_i σ2 hpush
+                    have hσ2 : SubstIn T σ2 :=
+                      SubstIn.pushAll hτ (fun s hs => by cases hs; exact hσ) hpush
+                    split at h
+                    · cases h
+                    · rename_i σ3 he2; cases h; exact ihS _ _ _ _ _ he2 hds' hσ2
+                    · rename_i σ3 he2
+                      exact ihS _ _ _ _ _ h hds' (ihS _ _ _ _ _ he2 hds' hσ2)
+
+/-- `match_bindings_locs`: the bindings `matchDatum` produces are sub-data of the datum matched -/
+theorem matchDatum_locs {T : List Pos} {n lits p d σ b σ'} (h : matchDatum n lits p d σ = .ok (b, σ'))
+    (hd : d.locs ⊆ T) (hσ : SubstIn T σ) : SubstIn T σ' :=
+  (match_locs_aux T lits n).1 p d σ _ h hd hσ
+
+/-! ### instantiating a template -/
+
+theorem locs_ofList_subset {T : List Pos} {loc : Loc} {ds : List Datum} (hl : loc.toList ⊆ T)
+    (hd : Datum.locsList ds ⊆ T) : (Datum.ofList loc ds).locs ⊆ T := by
+  rw [Datum.locs_ofList]; exact List.append_subset.2 ⟨hl, hd⟩
+
+theorem locs_vec_subset {T : List Pos} {loc : Loc} {ds : List Datum} (hl : loc.toList ⊆ T)
+    (hd : Datum.locsList ds ⊆ T) : (Datum.vec ds loc).locs ⊆ T := by
+  rw [Datum.locs]; exact List.append_subset.2 ⟨hl, hd⟩
+
+mutual
+theorem substItem_locs {T : List Pos} : ∀ (t : Tmpl) (σ : Subst) (i : Nat) (loc : Loc) (d : Datum),
+    SubstIn T σ → loc.toList ⊆ T → substItem t σ i loc = some d → d.locs ⊆ T
+  | .list es, σ, i, loc, d, hσ, hl, h => by
+    rw [substItem] at h
+    cases hs : substItems es σ i loc with
+    | none => simp [hs] at h
+    | some ds =>
+      simp only [hs, Option.map_some, Option.some.injEq] at h; subst h
+      exact locs_ofList_subset hl (substItems_locs es σ i loc ds hσ hl hs)
+  | .vec es, σ, i, loc, d, hσ, hl, h => by
+    rw [substItem] at h
+    cases hs : substItems es σ i loc with
+    | none => simp [hs] at h
+    | some ds =>
+      simp only [hs, Option.map_some, Option.some.injEq] at h; subst h
+      exact locs_vec_subset hl (substItems_locs es σ i loc ds hσ hl hs)
+  | .ident v, σ, i, loc, d, hσ, hl, h => by
+    rw [substItem] at h
+    split at h
+    · rename_i f more hg
+      split at h
+      · cases h
+      · exact (hσ.get hg).2 d (List.mem_of_getElem? h)
+    · cases h; simpa [Datum.locs] using hl
+  | .prim p, σ, i, loc, d, hσ, hl, h => by
+    rw [substItem] at h; cases h; simpa [Datum.locs] using hl
+theorem substItems_locs {T : List Pos} : ∀ (es : List (Tmpl × Bool)) (σ : Subst) (i : Nat) (loc : Loc)
+    (ds : List Datum), SubstIn T σ → loc.toList ⊆ T → substItems es σ i loc = some ds →
+    Datum.locsList ds ⊆ T
+  | [], σ, i, loc, ds, hσ, hl, h => by
+    rw [substItems] at h; cases h; simp [Datum.locsList]
+  | (t, b) :: rest, σ, i, loc, ds, hσ, hl, h => by
+    rw [substItems] at h
+    split at h
+    · cases h
+    · rename_i d hd
+      cases hs : substItems rest σ i loc with
+      | none => simp [hs] at h
+      | some r =>
+        simp only [hs, Option.map_some, Option.some.injEq] at h; subst h
+        simp only [Datum.locsList]
+        exact List.append_subset.2 ⟨substItem_locs t σ i loc d hσ hl hd,
+          substItems_locs rest σ i loc r hσ hl hs⟩
+end
+
+theorem substItemLoop_locs {T : List Pos} {t : Tmpl} {σ : Subst} {loc : Loc} (hσ : SubstIn T σ)
+    (hl : loc.toList ⊆ T) : ∀ (fuel i : Nat) (ds : List Datum),
+    substItemLoop fuel t σ i loc = some ds → Datum.locsList ds ⊆ T
+  | 0, i, ds, h => by simp [substItemLoop] at h
+  | fuel + 1, i, ds, h => by
+    rw [substItemLoop] at h
+    split at h
+    · cases h; simp [Datum.locsList]
+    · rename_i d hd
+      cases hs : substItemLoop fuel t σ (i + 1) loc with
+      | none => simp [hs] at h
+      | some r =>
+        simp only [hs, Option.map_some, Option.some.injEq] at h; subst h
+        simp only [Datum.locsList]
+        exact List.append_subset.2 ⟨substItem_locs t σ i loc d hσ hl hd,
+          substItemLoop_locs hσ hl fuel (i + 1) r hs⟩
+
+mutual
+/-- `expansion_locs`: every position in an instantiated template is the position of the macro use
+(`loc`) or a position inside a datum bound in the table -/
+theorem subst_locs {T : List Pos} (fuel : Nat) : ∀ (t : Tmpl) (σ : Subst) (loc : Loc) (d : Datum),
+    SubstIn T σ → loc.toList ⊆ T → subst fuel t σ loc = some d → d.locs ⊆ T
+  | .list es, σ, loc, d, hσ, hl, h => by
+    rw [subst] at h
+    cases hs : substElems fuel es σ loc with
+    | none => simp [hs] at h
+    | some ds =>
+      simp only [hs, Option.map_some, Option.some.injEq] at h; subst h
+      exact locs_ofList_subset hl (substElems_locs fuel es σ loc ds hσ hl hs)
+  | .vec es, σ, loc, d, hσ, hl, h => by
+    rw [subst] at h
+    cases hs : substElems fuel es σ loc with
+    | none => simp [hs] at h
+    | some ds =>
+      simp only [hs, Option.map_some, Option.some.injEq] at h; subst h
+      exact locs_vec_subset hl (substElems_locs fuel es σ loc ds hσ hl hs)
+  | .ident v, σ, loc, d, hσ, hl, h => by
+    rw [subst] at h
+    split at h
+    · rename_i f more hg; cases h; exact (hσ.get hg).1
+    · cases h; simpa [Datum.locs] using hl
+  | .prim p, σ, loc, d, hσ, hl, h => by
+    rw [subst] at h; cases h; simpa [Datum.locs] using hl
+theorem substElems_locs {T : List Pos} (fuel : Nat) : ∀ (es : List (Tmpl × Bool)) (σ : Subst) (loc : Loc)
+    (ds : List Datum), SubstIn T σ → loc.toList ⊆ T → substElems fuel es σ loc = some ds →
+    Datum.locsList ds ⊆ T
+  | [], σ, loc, ds, hσ, hl, h => by
+    rw [substElems] at h; cases h; simp [Datum.locsList]
+  | (t, true) :: rest, σ, loc, ds, hσ, hl, h => by
+    rw [substElems] at h
+    split at h
+    · rename_i first more r h1 h2 h3
+      cases h
+      simp only [Datum.locsList, Datum.locsList_append]
+      exact List.append_subset.2 ⟨List.append_subset.2 ⟨subst_locs fuel t σ loc first hσ hl h1,
+        substItemLoop_locs hσ hl fuel 0 more h2⟩, substElems_locs fuel rest σ loc r hσ hl h3⟩
+    · cases h
+  | (t, false) :: rest, σ, loc, ds, hσ, hl, h => by
+    rw [substElems] at h
+    split at h
+    · rename_i d r h1 h3
+      cases h
+      simp only [Datum.locsList]
+      exact List.append_subset.2 ⟨subst_locs fuel t σ loc d hσ hl h1,
+        substElems_locs fuel rest σ loc r hσ hl h3⟩
+    · cases h
+end
+
+/-- `transform_locs`: every position in the expansion of a macro use is a position of the use -/
+theorem transformRules_locs {T : List Pos} {fuel : Nat} {lits : List String} {use : Datum}
+    (hu : use.locs ⊆ T) : ∀ (rules : List (Pat × Tmpl)) (d : Datum),
+    transformRules fuel lits rules use = .ok d → d.locs ⊆ T
+  | [], d, h => by simp [transformRules] at h
+  | (p, t) :: rest, d, h => by
+    rw [transformRules] at h
+    cases hm : matchDatum fuel lits p use [] with
+    | error e => simp [hm, bind, Except.bind] at h
+    | ok r =>
+      obtain ⟨ok, σ⟩ := r
+      simp only [hm, bind, Except.bind] at h
+      have hσ : SubstIn T σ := matchDatum_locs hm hu (SubstIn.nil T)
+      split at h
+      · split at h
+        · cases h
+        · split at h
+          · rename_i d' hs
+            simp only [pure, Except.pure, Except.ok.injEq] at h; subst h
+            exact subst_locs fuel t σ use.loc d' hσ ((Datum.loc_subset use).trans hu) hs
+          · cases h
+      · exact transformRules_locs hu rest d h
 
 end Macro
+
+/-! ## values and the store -/
+
+/-- the code inside `v` has its positions in `T` -/
+def VIn (T : List RPos) (v : Value) : Prop := v.rlocs ⊆ T
+
+/-- the code stored in `σ` has its positions in `T` (`sIn_iff`: this is `σ.rlocs ⊆ T`) -/
+structure SIn (T : List RPos) (σ : Store) : Prop where
+  frame : ∀ (i : Nat) (f : Frame), σ.frames[i]? = some f → ∀ kv ∈ f.defs, VIn T kv.2
+  cell : ∀ (i : Nat) (c : VecCell), σ.vecs[i]? = some c → ∀ v ∈ c.items, VIn T v
+
+theorem sIn_iff {T : List RPos} {σ : Store} : SIn T σ ↔ σ.rlocs ⊆ T := by
+  constructor
+  · intro h x hx
+    simp only [Store.rlocs, List.mem_append, List.mem_flatMap, Frame.rlocs, VecCell.rlocs] at hx
+    rcases hx with ⟨f, hf, kv, hkv, hx⟩ | ⟨c, hc, v, hv, hx⟩
+    · obtain ⟨i, hi, rfl⟩ := List.getElem_of_mem hf
+      exact h.frame i _ (by simp at hi ⊢) kv hkv hx
+    · obtain ⟨i, hi, rfl⟩ := List.getElem_of_mem hc
+      exact h.cell i _ (by simp at hi ⊢) v hv hx
+  · intro h
+    constructor
+    · intro i f hf kv hkv x hx
+      apply h
+      simp only [Store.rlocs, List.mem_append, List.mem_flatMap, Frame.rlocs]
+      exact Or.inl ⟨f, by simpa using Array.mem_of_getElem? hf, kv, hkv, hx⟩
+    · intro i c hc v hv x hx
+      apply h
+      simp only [Store.rlocs, List.mem_append, List.mem_flatMap, VecCell.rlocs]
+      exact Or.inr ⟨c, by simpa using Array.mem_of_getElem? hc, v, hv, hx⟩
+
+section store
+variable {T : List RPos}
+
+theorem SIn.of_eq {σ σ' : Store} (h : SIn T σ) (hf : σ'.frames = σ.frames) (hv : σ'.vecs = σ.vecs) :
+    SIn T σ' := ⟨by rw [hf]; exact h.frame, by rw [hv]; exact h.cell⟩
+
+theorem vIn_atom {v : Value} (h : v.rlocs = []) : VIn T v := by simp [VIn, h]
+@[simp] theorem vIn_void : VIn T .void := vIn_atom rfl
+@[simp] theorem vIn_nil : VIn T .nil := vIn_atom rfl
+@[simp] theorem vIn_num {n} : VIn T (.num n) := vIn_atom rfl
+@[simp] theorem vIn_bool {n} : VIn T (.bool n) := vIn_atom rfl
+@[simp] theorem vIn_char {n} : VIn T (.char n) := vIn_atom rfl
+@[simp] theorem vIn_str {n} : VIn T (.str n) := vIn_atom rfl
+@[simp] theorem vIn_sym {n} : VIn T (.sym n) := vIn_atom rfl
+@[simp] theorem vIn_vec {n} : VIn T (.vec n) := vIn_atom rfl
+@[simp] theorem vIn_builtin {n} : VIn T (.builtin n) := vIn_atom rfl
+@[simp] theorem vIn_transformer {n} : VIn T (.transformer n) := vIn_atom rfl
+@[simp] theorem vIn_pair {a d : Value} : VIn T (.pair a d) ↔ VIn T a ∧ VIn T d := by
+  simp [VIn, Value.rlocs]
+@[simp] theorem vIn_closure {lam ρ} : VIn T (.closure lam ρ) ↔ lam.rlocs ⊆ T := by
+  simp [VIn, Value.rlocs]
+
+theorem vIn_ofList : ∀ {vs : List Value}, (∀ v ∈ vs, VIn T v) → VIn T (Value.ofList vs)
+  | [], _ => by simp [Value.ofList]
+  | v :: vs, h => by
+    simp only [Value.ofList, vIn_pair]
+    exact ⟨h v (by simp), vIn_ofList (fun x hx => h x (by simp [hx]))⟩
+
+theorem vIn_elems : ∀ {v : Value}, VIn T v → ∀ x ∈ v.elems, VIn T x
+  | .pair a d, h, x, hx => by
+    simp only [vIn_pair] at h
+    simp only [Value.elems, List.mem_cons] at hx
+    rcases hx with rfl | hx
+    · exact h.1
+    · exact vIn_elems h.2 x hx
+  | .nil, _, x, hx => by simp [Value.elems] at hx
+  | .num _, h, x, hx | .bool _, h, x, hx | .char _, h, x, hx | .str _, h, x, hx | .sym _, h, x, hx
+  | .closure _ _, h, x, hx | .builtin _, h, x, hx | .vec _, h, x, hx | .transformer _, h, x, hx
+  | .void, h, x, hx => by
+    simp only [Value.elems, List.mem_singleton] at hx; subst hx; exact h
+
+theorem sIn_define {σ : Store} (h : SIn T σ) (ρ : Nat) (k : String) {v : Value} (hv : VIn T v) :
+    SIn T (σ.define ρ k v) := by
+  constructor
+  · intro i f hf kv hkv
+    rw [Store.define_frames_getElem?] at hf
+    split at hf
+    · cases hg : σ.frames[i]? with
+      | none => simp [hg] at hf
+      | some g =>
+        simp only [hg, Option.map_some, Option.some.injEq] at hf
+        subst hf
+        rcases Store.mem_defsInsert hkv with rfl | hm
+        · exact hv
+        · exact h.frame i g hg kv hm
+    · exact h.frame i f hf kv hkv
+  · rw [Store.define_vecs]; exact h.cell
+
+theorem sIn_set {σ σ' : Store} {ρ x v b} (hs : σ.set ρ x v = (b, σ')) (h : SIn T σ) (hv : VIn T v) :
+    SIn T σ' := by
+  unfold Store.set at hs
+  split at hs <;> cases hs
+  · exact sIn_define h _ _ hv
+  · exact h
+
+theorem sIn_newFrame {σ : Store} (h : SIn T σ) (p : Option Nat) : SIn T (σ.newFrame p).2 := by
+  constructor
+  · intro i f hf kv hkv
+    simp only [Store.newFrame, Array.getElem?_push] at hf
+    split at hf
+    · cases hf; simp at hkv
+    · exact h.frame i f hf kv hkv
+  · exact h.cell
+
+theorem sIn_allocVec {σ : Store} (h : SIn T σ) (m : Bool) {items : List Value}
+    (hi : ∀ v ∈ items, VIn T v) : SIn T (σ.allocVec m items).2 := by
+  constructor
+  · exact h.frame
+  · intro i c hc v hv
+    simp only [Store.allocVec, Array.getElem?_push] at hc
+    split at hc
+    · cases hc; exact hi v hv
+    · exact h.cell i c hc v hv
+
+theorem sIn_lookup {σ : Store} (h : SIn T σ) {ρ : Nat} {s : String} {v : Value}
+    (hl : σ.lookup ρ s = some v) : VIn T v := by
+  rw [Store.lookup_eq_bind] at hl
+  cases hr : σ.resolve ρ s with
+  | none => simp [hr] at hl
+  | some r =>
+    simp only [hr, Option.bind_some, Store.binding] at hl
+    cases hf : σ.frames[r]? with
+    | none => simp [hf] at hl
+    | some f =>
+      simp only [hf] at hl
+      exact h.frame r f hf (s, v) (Eval.mem_of_lookup hl)
+
+theorem sIn_enter {σ : Store} : SIn T (Eval.enter σ) ↔ SIn T σ :=
+  ⟨fun h => h.of_eq (σ' := σ) rfl rfl, fun h => h.of_eq rfl rfl⟩
+theorem sIn_leave {σ : Store} : SIn T (Eval.leave σ) ↔ SIn T σ :=
+  ⟨fun h => h.of_eq (σ' := σ) rfl rfl, fun h => h.of_eq rfl rfl⟩
+
+theorem sIn_vsetStore {σ : Store} (h : SIn T σ) {id : Nat} {cell : VecCell} (hc : σ.vecs[id]? = some cell)
+    (n : Nat) {obj : Value} (ho : VIn T obj) : SIn T (Prim.vsetStore σ id cell n obj) := by
+  constructor
+  · exact h.frame
+  · intro j c hj v hv
+    rw [Prim.vsetStore_vecs_getElem?] at hj
+    split at hj
+    · split at hj
+      · cases hj
+        rcases List.mem_or_eq_of_mem_set hv with hm | rfl
+        · exact h.cell id cell hc v hm
+        · exact ho
+      · cases hj
+    · exact h.cell j c hj v hv
+
+end store
 
 end Ruschm
